@@ -446,7 +446,10 @@ impl Check for C15Csv {
     }
     fn check(&self, case: &Case15) -> CaseResult {
         let (args, input) = build(case);
-        let o = run(&args, &input);
+        let o = match run_any_sink(&args, &input) {
+            Ok(o) => o,
+            Err(m) => return CaseResult::Fail(m),
+        };
         if !o.res.is_ok() {
             return CaseResult::Fail(format!("csv run failed: {} args {:?}", o.res.short(), args));
         }
@@ -505,7 +508,10 @@ impl Check for C15Text {
     fn check(&self, case: &Case15) -> CaseResult {
         let Some(opts) = &case.text else { return CaseResult::Discard("not a text case".into()) };
         let (args, input) = build(case);
-        let o = run(&args, &input);
+        let o = match run_any_sink(&args, &input) {
+            Ok(o) => o,
+            Err(m) => return CaseResult::Fail(m),
+        };
         if !o.res.is_ok() {
             return CaseResult::Fail(format!("text run failed: {} args {:?}", o.res.short(), args));
         }
